@@ -21,6 +21,7 @@ fn main() {
         let depth: usize = args.get(4).and_then(|s| s.parse().ok()).unwrap_or(20);
         let timeout: u64 = args.get(5).and_then(|s| s.parse().ok()).unwrap_or(5000);
         let m = LoopModel::new(2, timeout, false, level);
+        let k = if k == 98 { 0 } else { k };
         let mut rep = srtla_verif::evidence::Report::new();
         let t0 = std::time::Instant::now();
         let plan = if k == 99 { RealPlan::Full { depth } } else { RealPlan::Dev { k, depth, default: 0 } };
